@@ -1,4 +1,5 @@
 import Cfdp.Model.Segments
+import Cfdp.Model.Checksum
 
 /-!
 Line-protocol driver: executes the model's definitions on the op lines produced by the Rust
@@ -45,9 +46,55 @@ def segStep (st : DState) (toks : List String) : DState × String :=
     | none => (st, "bad-op")
   | _ => (st, "bad-op")
 
+def hexVal (c : Char) : Option Nat :=
+  if '0' ≤ c ∧ c ≤ '9' then some (c.toNat - '0'.toNat)
+  else if 'a' ≤ c ∧ c ≤ 'f' then some (c.toNat - 'a'.toNat + 10)
+  else none
+
+def unhexGo : List Char → List UInt8 → Option (List UInt8)
+  | [], acc => some acc.reverse
+  | [_], _ => none
+  | a :: b :: rest, acc =>
+    match hexVal a, hexVal b with
+    | some x, some y => unhexGo rest (UInt8.ofNat (x * 16 + y) :: acc)
+    | _, _ => none
+
+def unhex (s : String) : Option (List UInt8) :=
+  if s == "-" then some [] else unhexGo s.toList []
+
+def hexDigit (n : Nat) : Char :=
+  if n < 10 then Char.ofNat (n + 48) else Char.ofNat (n - 10 + 97)
+
+def hex (bs : List UInt8) : String :=
+  if bs.isEmpty then "-" else
+  String.ofList (bs.flatMap (fun b => [hexDigit (b.toNat / 16), hexDigit (b.toNat % 16)]))
+
+def parseNats (s : String) : Option (List Nat) :=
+  (s.splitOn ",").mapM (·.toNat?)
+
+def linData (len a c : Nat) : List UInt8 :=
+  (List.range len).map (fun i => UInt8.ofNat ((a * i + c) % 256))
+
+def cksumOf (data : List UInt8) (sizes : List Nat) : String :=
+  toString (Cksum.checksumLoop (Cksum.chunkBy sizes (data.length + 1) 0 data)).toNat
+
+def cksumStep (toks : List String) : String :=
+  match toks with
+  | ["hex", h, ch] =>
+    match unhex h, parseNats ch with
+    | some d, some sizes => cksumOf d sizes
+    | _, _ => "bad-op"
+  | ["lin", len, a, c, ch] =>
+    match len.toNat?, a.toNat?, c.toNat?, parseNats ch with
+    | some len, some a, some c, some sizes => cksumOf (linData len a c) sizes
+    | _, _, _, _ => "bad-op"
+  | ["null", _] => toString Cksum.checksumNull.toNat
+  | _ => "bad-op"
+
 def step (st : DState) (line : String) : DState × String :=
   match (line.splitOn " ").filter (· ≠ "") with
   | "seg" :: rest => segStep st rest
+  | "cksum" :: rest => (st, cksumStep rest)
   | _ => (st, "bad-op")
 
 partial def loop (h : IO.FS.Stream) (out : IO.FS.Stream) (st : DState) : IO Unit := do
